@@ -99,10 +99,13 @@ def batch(chk, tier, race):
         return len(pool) - 1
 
     key = put(rb(rng, 16))
-    d = rscalar(rng)
-    pub = ec.mul(d)
-    priv = put(b32(d))
-    pubi = put(b32(pub[0]) + b32(pub[1]))
+    # two signing keys used side by side (anything remembered about "the" key by one call meets the other key)
+    ds = [rscalar(rng), rscalar(rng)]
+    privs = [put(b32(d_)) for d_ in ds]
+    pubis = []
+    for d_ in ds:
+        pub = ec.mul(d_)
+        pubis.append(put(b32(pub[0]) + b32(pub[1])))
     calls = []
     items = [(pool[key], rb(rng, 12), rb(rng, rng.choice([0, 9, 130])), rb(rng, L), 16) for L in (0, 5, 16, 33, 100, 300)]
     sealed = seal_all(chk, items)
@@ -116,11 +119,12 @@ def batch(chk, tier, race):
         si = put(rb(rng, 16))
         calls.append(dict(k="enc", a=si, b=0, c=0, d=0))
         calls.append(dict(k="dec", a=si, b=0, c=0, d=0))
-    for _ in range(4 if tier == "quick" else 12):
+    for i in range(4 if tier == "quick" else 12):
         e = rb(rng, 32)
         ei = put(e)
         kk = rscalar(rng)
         ki = put(b32(kk))
+        d, priv, pubi = ds[i % 2], privs[i % 2], pubis[i % 2]
         calls.append(dict(k="sign", a=priv, b=ei, c=ki, d=0))
         # a valid signature to verify concurrently (constructed by the generator; judged by TLC)
         x1 = ec.mul(kk)[0]
